@@ -19,10 +19,21 @@ partial def parseAll (f : List Char → List PCmd) (alpha : List Char) (k : Nat)
   if k = 0 then fnv h (encParsed (f rev.reverse))
   else alpha.foldl (fun h c => parseAll f alpha (k - 1) (c :: rev) h) h
 
+/-- hash over the four template texts around every scalar value in [a, b) (see harness `parsecp`) -/
+def parseCp (f : List Char → List PCmd) (a b : Nat) : UInt64 :=
+  (List.range (b - a)).foldl (fun h k =>
+    let v := a + k
+    if v < 0xD800 ∨ (0xDFFF < v ∧ v < 0x110000) then
+      let c := Char.ofNat v
+      [['혀', c, '엉', '.'], ['형', c, '형'], ['형', '.', c, '.'], [c, '형', c]].foldl (fun h t => fnv h (encParsed (f t))) h
+    else h) 14695981039346656037
+
 def dispatch (f : List String) : String :=
   match f with
   | ["m.parse", t] => encParsed (parse (decText t))
   | ["s.parse", t] => encParsed (specParse (decText t))
+  | ["m.parsecp", a, b] => toHex (parseCp parse a.toNat! b.toNat!).toNat
+  | ["s.parsecp", a, b] => toHex (parseCp specParse a.toNat! b.toNat!).toNat
   | ["m.parseall", a, n, p] => toHex (parseAll parse (decText a) n.toNat! (decText p).reverse 14695981039346656037).toNat
   | ["s.parseall", a, n, p] => toHex (parseAll specParse (decText a) n.toNat! (decText p).reverse 14695981039346656037).toNat
   | ["m.num", op, a, b] => mNum op a b
